@@ -267,10 +267,12 @@ VTotalC07(e) == FirstBad("C07.unsafe-site", {k \in 1..Len(e.hooks) : ~HookOk(e.h
 VTotalC13(e) ==
   IF e.res \in {"panic", "abort"} THEN <<"C13.total", e.res>>
   ELSE IF e.stage = "batch" THEN <<"C13.total", e.res>>
+  \* a declared error is not a panic: C13 only demands success where it says so (finite unit-cube data must give finite
+  \* results); that supported configurations succeed on ordinary data is the business of C01-C06/C14
   ELSE IF e.res # "ok" THEN
-         (IF YuvStage(e) /\ Has(e, "divisible") /\ e.divisible = 0 /\
-             e.res \in {"UnsupportedMatrixCoefficients", "UnspecifiedMatrixCoefficients", "UnsupportedColorPrimaries",
+         (IF e.res \in {"UnsupportedMatrixCoefficients", "UnspecifiedMatrixCoefficients", "UnsupportedColorPrimaries",
                         "UnspecifiedColorPrimaries", "UnsupportedTransferCharacteristic", "UnspecifiedTransferCharacteristic"}
+             /\ (e.input # "unit" \/ (YuvStage(e) /\ Has(e, "divisible") /\ e.divisible = 0))
           THEN OK ELSE <<"C13.supported-config-failed", e.res>>)
   ELSE IF YuvStage(e) /\ ~(e.maxcode <= Pow2(e.cfg.n) - 1) THEN <<"C13.code-out-of-range", e.maxcode>>
   ELSE IF YuvStage(e) /\ e.rewrap # "ok" THEN <<"C13.not-rewrappable", e.rewrap>>
